@@ -37,7 +37,8 @@ CLAIMS = {
              'SessionCache.connect / reconnect / prepare_connection_for_query_execution / commit / rollback / release / close, core.commit / rollback and '
              '_commit_or_rollback are executed with every DB-API call (connect, cursor, execute, commit, rollback, close, autocommit switch), on_connect and '
              'flush allowed to fail at every point; on every path the SQLite transaction lock is held iff the cache is in a transaction, never double-acquired '
-             'or double-released, free at session end, and every connection handed out by the pool is returned or closed exactly once.',
+             'or double-released, free at session end, and every connection handed out by the pool is returned or closed exactly once. BOUNDED (<= 2 resumptions, shared with C18): a db_session generator is '
+             'never suspended with unflushed changes or an open transaction.',
         note='Thread schedules (two or three sessions) are NOT covered: outside this technique. Ground obligations (decided by evaluation after path enumeration). '
              'Trusted: GhostLock as single-thread model of threading.Lock; DB-API stubs return-or-raise; psycopg2 stub module only supplies exception classes.'),
     'C36': dict(
@@ -60,7 +61,7 @@ CLAIMS = {
              '(constant and expression items, four dialects, explicit or default escape) denote exactly the original value: the real functions run on a '
              'symbolic string, the result is normalised to prefix + Hom(replace chain) + suffix, per-character local conditions against reference lexers are '
              'discharged by z3, and a Lean 4 lemma (checked every setup) lifts them to all strings. MOD percent doubling proved per style. Placeholder-to-'
-             'argument binding (SQLBuilder.__init__/make_param/adapter/Param.__str__) is BOUNDED (<= 4 occurrences, all partitions) and counted separately.',
+             'argument binding (SQLBuilder.__init__/make_param/adapter/Param.__str__) is BOUNDED (<= 4 occurrences, all partitions; composite parameters: 1-2 JSON paths of <= 2 items with variables) and counted separately.',
         note='Trusted: reference lexers (SQL literal and LIKE tokenizer validated against sqlite3 every run; MySQL backslash mode and PostgreSQL/MySQL default LIKE '
              'escape from the manuals), str.replace with 1-char needle is char-wise, SQL REPLACE equals Python replace, Lean kernel. Known finding: MySQL backslash in literals.'),
     'C30': dict(
@@ -189,7 +190,7 @@ CLAIMS = {
         text='PARTIAL proof of what pony must do so that locking is the database\'s contract: SELECT_FOR_UPDATE on every dialect builder = the plain query + FOR UPDATE [NOWAIT | SKIP LOCKED] '
              '(SQLite: plain); get_for_update (pk / unique / lambda), Query.for_update on a real model: the locking read runs with cache.immediate inside the open (BEGIN IMMEDIATE) transaction, '
              'hands SELECT_FOR_UPDATE with the options to the builder, is not answered from the cache for an object loaded without a lock, registers the object in cache.for_update; '
-             'ledger sessions (SQLite, PostgreSQL) for for_update / serializable / pessimistic modes over every fault point: protected reads never run in autocommit mode, PostgreSQL '
+             'ledger sessions (SQLite, PostgreSQL) for for_update / serializable / pessimistic modes over every fault point, also when the application catches the error of a locking read and retries it in the same session: protected reads never run in autocommit mode, PostgreSQL '
              'SERIALIZABLE is set inside the transaction before them, and that transaction is not ended before the body ends; db_session option table; commit empties the locked set.',
         note='Schedules of two or three sessions (who waits, who fails, final values versus serial executions) are NOT covered: outside contract-based verification. '
              'Row-lock / write-lock / SERIALIZABLE semantics are the database\'s contract (assumed).'),
@@ -267,9 +268,9 @@ CLAIMS = {
         note='The property quantifies over all hierarchies and queries; this is an enumerated family. The class-refinement rule of the identity map is proved under C11.'),
     'C23': dict(
         category='other',
-        text='BOUNDED stand-in (never counted as proved): the same 6 observation programs (attribute values incl. lazy ones, related objects, collection contents, counts, emptiness, '
-             'membership, navigation chains, subclass attributes) run on the same stored data under 4 model variants (default; every non-key attribute and collection lazy; '
-             'collection batch loading disabled; batch loading from the first access) x 5 loading strategies (plain access, prefetch() of every relation and lazy attribute, objects first '
+        text='BOUNDED stand-in (never counted as proved): the same 12 observation programs (attribute values incl. lazy ones, related objects, collection contents, counts, emptiness, '
+             'membership, navigation chains, subclass attributes; two read after a refused delete, three after pending collection changes) run on the same stored data under 5 model variants (default; every non-key attribute, reference and collection lazy; '
+             'collection batch loading disabled; batch loading from the first access; batches of at most 3 objects) x 5 loading strategies (plain access, prefetch() of every relation and lazy attribute, objects first '
              'seen as unloaded references, everything loaded by one big query first, reverse access order): every run observes exactly what the baseline run observes.',
         note='A relation between whole runs: no single-call contract expresses it; this is a differential check on one model and data set. The oracle is the baseline run.'),
     'C09': dict(
